@@ -3,6 +3,7 @@ package rules
 import (
 	"go/token"
 	"go/types"
+	"sort"
 	"strings"
 
 	"golang.org/x/tools/go/ssa"
@@ -20,7 +21,7 @@ func init() {
 			"every field of the recorder); (R3) defer order: the deferred finished-log that reads the recorder is registered after the recorder's deferred Put, so it runs before the recorder is " +
 			"released; SetImplicitSuccess runs after ServeHTTP; WriteHeader records the code it forwards; Write/Header forward; (R4) the closure captures only the middleware and the next handler; " +
 			"ServeHTTP gets this invocation's pooled recorder and request; the four logger attributes map host/method/raddr/request_uri to r.Host/Method/RemoteAddr/RequestURI. " +
-			"Not decided: behaviour under actual interleavings; R2-R4 are the conditions under which a pooled object cannot be live in two requests at once.",
+			"Every WithAttrs method of the module (the per-request logger is derived with it from one shared handler) appends only to storage it does not share with the receiver and does not keep the caller's slice. Not decided: behaviour under actual interleavings; R2-R4 are the conditions under which a pooled object cannot be live in two requests at once.",
 		Technique: "pool typestate (Get / deferred Put / reset-before-use), defer-order dominance, reset completeness, capture analysis on go/ssa",
 		Note:      "Trusted: go/ssa, sync.Pool never handing one object to two Gets without an intervening Put, defer LIFO order.",
 		DesignRef: "DESIGN.md section 4, C20",
@@ -37,6 +38,7 @@ func runC20(c *Ctx) {
 	c.L.Floor("C20.recorder", 4)
 	c.L.Floor("C20.isolation", 3)
 	c.L.Floor("C20.attrs", 4)
+	c20HandlerAttrs(c)
 
 	if w := c.fn("netutil/httputil", "Wrap"); w != nil {
 		c20Wrap(c, w)
@@ -827,4 +829,112 @@ func sameConstOrGlobal(a, b ssa.Value) bool {
 	ka, okA := a.(*ssa.Const)
 	kb, okB := b.(*ssa.Const)
 	return okA && okB && types.Identical(ka.Type(), kb.Type()) && ka.Value != nil && kb.Value != nil && ka.Value.ExactString() == kb.Value.ExactString()
+}
+
+// c20HandlerAttrs: the per-request logger is `logger.Handler().WithAttrs(attrs)`
+// with a pooled attribute slice, once per request, from one shared base
+// handler.  Requests overlap, so the handlers derived from one parent are
+// siblings that live at the same time: a WithAttrs of the module that appends
+// into spare capacity of the parent's attribute slice makes them write into
+// one backing array (the later request's host / method / raddr / request_uri
+// show up in the earlier request's records), and one that keeps the caller's
+// slice keeps a slice the middleware puts back into its pool.  For every
+// WithAttrs method of the module: what it appends to is not storage shared with
+// the receiver, and the parameter is not stored as it is.
+func c20HandlerAttrs(c *Ctx) {
+	const rule = "C20.handler-attrs"
+	c.L.Floor(rule, 2)
+	var fns []*ssa.Function
+	for path := range c.P.SPkgs {
+		if !strings.HasPrefix(path, core.ModPath) {
+			continue
+		}
+		for _, f := range c.P.Funcs(path) {
+			if f.Name() != "WithAttrs" || f.Signature.Recv() == nil || len(f.Params) != 2 || len(f.Blocks) == 0 {
+				continue
+			}
+			if sl, ok := f.Params[1].Type().Underlying().(*types.Slice); !ok || !strings.HasSuffix(sl.Elem().String(), "log/slog.Attr") {
+				continue
+			}
+			fns = append(fns, f)
+		}
+	}
+	sort.Slice(fns, func(i, j int) bool { return core.FuncName(fns[i]) < core.FuncName(fns[j]) })
+	for _, f := range fns {
+		c.L.Saw(core.FuncName(f))
+		attrs := ssa.Value(f.Params[1])
+		bad, n := "", 0
+		var at ssa.Instruction
+		core.EachInstr(f, func(in ssa.Instruction) {
+			switch x := in.(type) {
+			case *ssa.Call:
+				if b, isB := x.Call.Value.(*ssa.Builtin); isB && b.Name() == "append" {
+					n++
+					if why, ok := sliceUnshared(x.Call.Args[0], 0); !ok && bad == "" {
+						bad, at = why, x
+					}
+				}
+			case *ssa.Store:
+				if x.Val == attrs && bad == "" {
+					if _, isField := x.Addr.(*ssa.FieldAddr); isField {
+						bad, at = "the caller's slice is stored as it is: the middleware returns it to its pool while the derived handler lives on", x
+					}
+				}
+			}
+		})
+		c.check(bad == "", rule, f, "derived handlers share no attribute storage with their parent, their siblings or the caller", at,
+			sprintf("%d append(s) examined; %s", n, bad))
+	}
+}
+
+// sliceUnshared: appending to v cannot write into storage that another
+// handler sees — v is fresh, clipped, or an append onto such a slice.
+func sliceUnshared(v ssa.Value, depth int) (string, bool) {
+	if depth > 6 {
+		return "append chain too long", false
+	}
+	switch x := v.(type) {
+	case *ssa.MakeSlice:
+		return "fresh slice", true
+	case *ssa.Const:
+		return "nil slice", x.IsNil()
+	case *ssa.Slice:
+		if x.Max != nil {
+			return "three-index slice (capacity clipped)", true
+		}
+		if _, isAlloc := x.X.(*ssa.Alloc); isAlloc {
+			return "fresh array", true // variadic or literal storage
+		}
+		if w, ok := sliceUnshared(x.X, depth+1); ok {
+			return "reslice of " + w, true
+		}
+		return "append onto a plain reslice of shared attributes", false
+	case *ssa.Call:
+		if b, isB := x.Call.Value.(*ssa.Builtin); isB && b.Name() == "append" {
+			w, ok := sliceUnshared(x.Call.Args[0], depth+1)
+			if ok {
+				return "append onto " + w, true
+			}
+			return w, false
+		}
+		n := core.CalleeName(&x.Call)
+		if n == "slices.Clip" || n == "slices.Clone" || strings.HasPrefix(n, "slices.Concat") {
+			return n + " (no spare capacity shared)", true
+		}
+		return "append onto the result of " + n, false
+	case *ssa.Phi:
+		for _, e := range x.Edges {
+			if w, ok := sliceUnshared(e, depth+1); !ok {
+				return w, false
+			}
+		}
+		return "every arriving slice unshared", true
+	}
+	if name, _, ok := core.IsLoadOfField(v); ok {
+		return "append(h." + name + ", ...) may write into spare capacity shared with the parent handler and with sibling handlers (the loggers of overlapping requests)", false
+	}
+	if _, isParam := v.(*ssa.Parameter); isParam {
+		return "append onto the caller's slice", false
+	}
+	return "unrecognised base " + core.Describe(v), false
 }
